@@ -4,9 +4,9 @@ import vlib
 
 TARGETS = ["Base/Corr.vo", "Base/Fl.vo", "C01/Model.vo", "C02/Model.vo", "C11/Model.vo", "C03/Model.vo", "C03/ModelM.vo",
            "C10/Gen.vo", "C09/ModelS.vo", "C09/ModelB.vo", "C09/ModelV.vo", "C09/ModelM.vo", "C09/ModelMD.vo", "C09/ModelVR.vo", "C09/Spec.vo", "C09/Corr.vo",
-           "C09/CorrB.vo", "C09/CorrM.vo", "C09/ModelI.vo", "C09/CorrI.vo", "C09/ModelVA.vo", "C09/CorrA.vo", "C09/ModelMA.vo", "C09/CorrMA.vo", "C09/SpecTest.vo",
+           "C09/CorrB.vo", "C09/CorrM.vo", "C09/ModelI.vo", "C09/CorrI.vo", "C09/ModelVA.vo", "C09/CorrA.vo", "C09/ModelMA.vo", "C09/CorrMA.vo", "C09/ModelMW.vo", "C09/CorrMW.vo", "C09/SpecTest.vo",
            "C09/ProofsS.vo", "C09/ProofsB.vo", "C09/ProofsJ.vo", "C09/ProofsV.vo", "C09/ProofsM.vo", "C09/ProofsMD.vo", "C09/ProofsRefuted.vo",
-           "C09/ProofsRefutedB.vo", "C09/ProofsVR.vo", "C09/ProofsI.vo", "C09/ProofsVA.vo", "C09/ProofsMA.vo", "C09/Props.vo"]
+           "C09/ProofsRefutedB.vo", "C09/ProofsVR.vo", "C09/ProofsI.vo", "C09/ProofsVA.vo", "C09/ProofsMA.vo", "C09/ProofsMW.vo", "C09/ProofsMW2.vo", "C09/Props.vo"]
 PROPS = ["C09/Props.v"]
 PARTIAL = (
     "Proved in Coq (coq/C09/Props.v), for ALL register files / worlds, all zero patterns, all alias patterns, about "
@@ -72,9 +72,25 @@ PARTIAL = (
     "elements with derivatives included). Element carrier of (3)-(7) is Z "
     "(exact ring): what only floats can show (sign of zero, 0*Inf, order of accumulation) is outside these theorems and is "
     "decided per run by the direct generic-vs-concrete comparison on the implementation (directed family: products whose sum "
-    "depends on the accumulation order, in-place products r = a, r = b, r = a = b, all nine element types). NOT modelled "
+    "depends on the accumulation order, in-place products r = a, r = b, r = a = b, all nine element types). "
+    "(8) (round 7) the element-wise dense matrix pairs on VIEWS (coq/C09/ModelMW.v: a world is the list of backing arrays, a "
+    "matrix an arbitrary header over one of them, every access through the index kernel C10/Gen.v regenerates from the Go "
+    "source, views built inside Coq by the regenerated Slice / T): MADDM MSUBM MMULM MDIVM MADDS MSUBS MMULS MDIVS equal the "
+    "generic members on EVERY world and EVERY header (any offsets, transposition, overlapping views of one parent, headers "
+    "reaching outside their array), change no cell outside the image of the receiver's index kernel (frame), and — receiver "
+    "a view inside its parent, operands in other backing arrays — leave f(a(i,j), b(i,j)) in every cell of the receiver "
+    "view (closed form; index kernel injective on views inside their parent). Both models replayed against both Go members "
+    "every run (family MW: 600 cases, all nine element types, shared / overlapping parents, receiver = operand, transposed "
+    "views, parents of one common shape at different offsets; every cell of every parent compared). The closed form for "
+    "OVERLAPPING receiver / operand views is not stated (the generic = concrete theorem and the frame cover them); the "
+    "products MDOTM MDOTV VDOTM, EQUALS and OUTER on views are not in this model: they are compared on the implementation "
+    "(direct comparison: 1 random evaluation in 3 with a matrix operand uses SLICE views, half of them of parents of one "
+    "common shape at different offsets, dense ones also transposed, parents dumped; directed family on 4 x 5 parents at "
+    "offsets (0,0) (1,1) (2,2) for all pairs, all nine types; directed in-place Order-2 calls of every magic scalar pair). "
+    "NOT modelled "
     "(compared on the implementation only, every run, all nine element types, bit-exact incl. derivatives): ROW COL DIAG "
-    "SLICE (source shape checked), JOINT_ITERATOR of dense receivers, matrix views; sparse Real absent-entry visits (above); a "
+    "SLICE (source shape checked), JOINT_ITERATOR of dense receivers, views of sparse matrices and the products on views; "
+    "sparse Real absent-entry visits (above); a "
     "scalar reference into a DENSE vector handed to a SPARSE receiver, and references into Real-element containers other than what "
     "(4') covers (there the scalar is a register that may be a cell of the receiver: proved on the model, not replayed as a "
     "vector-level case). "
@@ -134,7 +150,7 @@ def corr(ctx, binary, n):
         return None, []
     bad = []
     nc = ns = 0
-    for stem in ("cases", "bcases", "mcases", "icases", "acases", "macases"):
+    for stem in ("cases", "bcases", "mcases", "icases", "acases", "macases", "mwcases"):
         meta = json.load(open(os.path.join(ctx.dir, stem + ".meta.json")))
         vlib.merge_meta(ctx, meta)
         if meta.get("no_pair"):
@@ -196,6 +212,9 @@ def run(ctx):
             "pairs_never_evaluated_without_panic": sorted(k for k, v in (o.get("per_pair") or {}).items()
                                                           if not (o.get("per_pair_nonpanic") or {}).get(k)),
             "known_difference_instances": o.get("diff_count"),
+            "evaluations_with_SLICE_views_among_the_operands": o.get("view_evaluations"),
+            "of_which_not_both_members_panicked": o.get("view_evaluations_nonpanic"),
+            "directed_evaluations": o.get("directed_evaluations"),
             "corpus_witnesses": o.get("corpus_witnesses"),
             "regression_witnesses_of_fixed_findings_that_agree": o.get("regression_witnesses_agree"),
             "corpus_witnesses_that_agree_now (a listed finding may have been fixed)": o.get("corpus_witnesses_that_agree_now"),
